@@ -24,7 +24,7 @@ use std::path::Path;
 use std::path::PathBuf;
 use std::rc::Rc;
 use std::sync::LazyLock;
-use chrono::{Datelike, Local, Timelike};
+use chrono::NaiveDate;
 use mp3_metadata::MP3Metadata;
 use regex::Regex;
 use sha1::Digest;
@@ -127,19 +127,10 @@ where
     where
         T: Ord,
     {
-        let default = Local::now()
-            .naive_local()
-            .with_year(1970)
+        // a constant: built from today's date it did not exist on 29 February (1970 was no leap year)
+        let default = NaiveDate::from_ymd_opt(1970, 1, 1)
             .unwrap()
-            .with_month(1)
-            .unwrap()
-            .with_day(1)
-            .unwrap()
-            .with_hour(0)
-            .unwrap()
-            .with_minute(0)
-            .unwrap()
-            .with_second(0)
+            .and_hms_opt(0, 0, 0)
             .unwrap();
         let a = parse_datetime(&self.values[i].to_string())
             .unwrap_or((default, default))
